@@ -33,9 +33,10 @@ const (
 	streamGrammar
 	streamBytes
 	streamDeep
+	streamRevCycle
 )
 
-var streamNames = []string{"i-corpus", "ii-repo-texts", "iii-grammar-mutation", "iv-byte-mutation", "iv-depth-and-error-budget"}
+var streamNames = []string{"i-corpus", "ii-repo-texts", "iii-grammar-mutation", "iv-byte-mutation", "iv-depth-and-error-budget", "v-revision-twins-and-cycles"}
 
 // job is one history to run: explicit, or generated from (stream, idx) and the seed.
 type job struct {
@@ -154,7 +155,7 @@ func makeHistory(f *lib.Flags, pool *seedPool, stream, idx int) (History, []stri
 		}
 		h = historyOf(streamNames[stream], origin+": "+strings.Join(o, ","), fs)
 	}
-	if r.Intn(8) == 0 {
+	if r.Intn(8) == 0 || (hasOp(ops, "include-cycle") && r.Intn(2) == 0) {
 		h.IgnoreCircular = true
 	}
 	if r.Intn(8) == 0 {
@@ -186,6 +187,27 @@ func errClassOf(rec string) string {
 		return rec[i+1:]
 	}
 	return rec
+}
+
+// clauseOf names the clause of property C01 that a crashed history violates.
+func clauseOf(v *Verdict) string {
+	switch v.Kind {
+	case "panic":
+		return "violates C01 'malformed, contradictory, cyclic or incomplete YANG is reported through returned errors, never through a panic' (panic recovered in the worker child)"
+	case "died":
+		if strings.Contains(v.Msg, "stack overflow") || strings.Contains(v.Msg, "stack exceeds") {
+			return "violates C01 'never through ... a fatal runtime error, unbounded recursion' (stack overflow: the worker child died; the history was re-run alone to name it)"
+		}
+		if strings.Contains(v.Msg, "out of memory") {
+			return "violates C01 'never through ... a fatal runtime error' (out of memory: the worker child died)"
+		}
+		return "violates C01 'never through a panic, a fatal runtime error ...' (the worker child died)"
+	case "resource":
+		return "violates C01 'every call returns in bounded time' (processor-time / memory limit of the history exceeded in the worker child)"
+	case "timeout":
+		return "violates C01 'every call returns in bounded time ... never a hang' (no answer within the bound, confirmed by a second run alone with four times the bound)"
+	}
+	return "runner obligation"
 }
 
 // knownTag returns the id of a known, not yet repaired finding whose narrow signature matches.
@@ -287,7 +309,7 @@ type agg struct {
 	res        *lib.Result
 	distinct   *lib.Distinct
 	nontriv    *lib.Distinct
-	streams    [5]streamStats
+	streams    [6]streamStats
 	ops        map[string]int64
 	whyFuzz    map[string]int64
 	errClass   map[string]int64
@@ -299,6 +321,10 @@ type agg struct {
 	deepNotes  []string
 	ampNotes   []string
 	samples    int
+	// expensive crashes (dead child, resource limit, confirmed timeout) of the deterministic stream v:
+	// past 24 of them the rest of the stream is skipped (each costs seconds; the first ones name the fault)
+	costly  int64
+	skipped int64
 }
 
 func main() {
@@ -439,6 +465,11 @@ func main() {
 		h := newHistory(streamNames[streamDeep], fmt.Sprintf("%d lexical errors in one file", n), []string{"errs.yang"}, []string{manyErrors(r, n)})
 		jobs = append(jobs, job{stream: streamDeep, idx: n, h: &h})
 	}
+	// revision twins and include / import cycles (deterministic families, see revcycle.go)
+	for i, h := range revCycleHistories(f.Thorough()) {
+		h := h
+		jobs = append(jobs, job{stream: streamRevCycle, idx: i, h: &h})
+	}
 	// amplifiers: k levels, each referring to the previous one b times, for every kind of reference
 	for i, h := range amplifierHistories() {
 		h := h
@@ -470,6 +501,24 @@ func main() {
 			}
 		}
 		jobs = keep
+	} else if only == "revcycle" || only == "corpus" {
+		var keep []job
+		for _, j := range jobs {
+			if (only == "revcycle" && j.stream == streamRevCycle) || (only == "corpus" && j.stream == streamCorpus) {
+				keep = append(keep, j)
+			}
+		}
+		jobs = keep
+	}
+	if dir := os.Getenv("VERIF_C01_DUMP"); dir != "" {
+		// debugging aid: write the explicit histories of the selected jobs as replayable files
+		os.MkdirAll(dir, 0o755)
+		for i, j := range jobs {
+			if j.h != nil {
+				raw, _ := json.MarshalIndent(j.h, "", " ")
+				os.WriteFile(filepath.Join(dir, fmt.Sprintf("%05d.json", i)), raw, 0o644)
+			}
+		}
 	}
 	// ---- run
 	var next int64 = -1
@@ -492,6 +541,10 @@ func main() {
 					return
 				}
 				j := jobs[i]
+				if j.stream == streamRevCycle && atomic.LoadInt64(&a.costly) >= 24 {
+					atomic.AddInt64(&a.skipped, 1)
+					continue
+				}
 				var h History
 				var ops []string
 				switch {
@@ -504,6 +557,9 @@ func main() {
 					h, ops = makeHistory(f, pool, j.stream, j.idx)
 				}
 				v := w.run(&h)
+				if v.Crashed && v.Kind != "panic" && j.stream == streamRevCycle {
+					atomic.AddInt64(&a.costly, 1)
+				}
 				a.evaluate(f, d, j, &h, &v, ops)
 			}
 		}()
@@ -531,6 +587,9 @@ func main() {
 	res.Distribution["mutation_operators"] = a.ops
 	res.Distribution["go_error_classes(process)"] = a.errClass
 	res.Distribution["lean_driver_failures"] = a.driverBad
+	if a.skipped > 0 {
+		res.Distribution["stream_v_histories_skipped_after_24_dead_children"] = a.skipped
+	}
 	res.Distribution["max_go_time_ms_of_one_history"] = a.maxMicros / 1000
 	res.Distribution["max_cpu_ms_of_one_history"] = a.maxCPUms
 	res.Distribution["max_memory_held_mib_of_one_history"] = a.maxPeakMiB
@@ -563,7 +622,14 @@ func main() {
 		"- relative / absolute x unprefixed / own / import / unknown prefix x existing / missing target x ., .., //, trailing /, empty - in refine, augment, uses-augment, " +
 		"deviation, leafref path, key, unique, must, when), byte-level mutation, nesting " +
 		"depth up to 10^4, amplifier chains (k levels x b references per level for every kind of reference, clean and with one fault at the bottom), 7-24 lexical errors per file, and the lexer's error limit (7-10 invalid escapes in four layouts followed by each kind of lexer construct, " +
-		"in particular invalid escapes before multi-byte runes; the same as a byte-level operator on existing texts). evaluations = histories run; distinct_nontrivial = distinct histories (by hash of names, texts, " +
+		"in particular invalid escapes before multi-byte runes; the same as a byte-level operator on existing texts), and the deterministic stream v (revcycle.go): " +
+		"(a) twins - several texts under ONE module or submodule name (revision then unrevisioned, unrevisioned then revision, two revisions ascending / descending, the same text twice, " +
+		"three-text mixes) x 14 bodies that need the module's back pointers (typedefs of identityref with local / own-prefix / imported base, prefixed types, unions, leafrefs, prefixed uses, " +
+		"augments, deviations, includes, prefixed extensions, unknown prefixes and bases) x importer / includer with and without revision-date; (b) include cycles among submodules and import " +
+		"cycles among modules of length 1-4 x revision statements on all / none / some members x includes with / without revision-date (also one asking for an absent revision) x look-ups that " +
+		"fail in the owner or inside the cycle (unknown grouping, grouping / typedef / identity of the owner or of the last member used from inside, unknown typedef, unknown identity base, " +
+		"unknown extension prefix, names under the prefix of the next member) x IgnoreSubmoduleCircularDependencies off / on; the same two shapes are grammar operators (revision-twin, " +
+		"include-cycle) on generated sets and repository texts. A dead child (stack overflow, out of memory) is confirmed by running the history again alone in a fresh child. evaluations = histories run; distinct_nontrivial = distinct histories (by hash of names, texts, " +
 		"options) in which at least one text passes the generic parser, i.e. reaches the AST builder"
 	res.Write(f.Out)
 }
@@ -761,7 +827,7 @@ func (a *agg) evaluate(f *lib.Flags, d *driver, j job, h *History, v *Verdict, o
 			}
 			a.res.Disagreements = append(a.res.Disagreements, lib.Disagreement{Kind: kind, Input: inputSummary(h),
 				Go: short(v.Msg, 3000), SpecVerdict: "violates", Known: knownTag(h, v),
-				What:   fmt.Sprintf("goyang %s on a %s history (%s): %s", v.Kind, h.Stream, site, short(firstLine(v.Msg), 200)),
+				What:   fmt.Sprintf("%s: goyang %s on a %s history (%s): %s [history: %s]", clauseOf(v), v.Kind, h.Stream, site, short(firstLine(v.Msg), 200), short(h.What, 240)),
 				Replay: h})
 		}
 		n, _ := a.res.Distribution["disagreements_total"].(int)
